@@ -196,6 +196,23 @@ def selector_for(t, s):
     return None
 
 
+def selector_ast(t, s):
+    """the same selector as a vlib.tableref AST (regex / range / span), for the content oracle"""
+    sd = s["seed"]
+    kind = s["sel"]
+    n = len(t)
+    if kind == "regex" and t._index is not None:
+        pat, cnt = [("m.*", None), ("M1", None), (".*", None), ("d|ip", None), ("q1", 0), ("m.*", -1), ("zz", None)][sd[0] % 7]
+        return ["regex", pat, cnt, 0]
+    if kind == "range" and "a" in t._col_names:
+        lo, hi = [(0.0, 2.0), (None, 1.5), (1.0, None)][sd[0] % 3]
+        return ["range", lo, hi, "a"]
+    if kind == "span" and t._index is not None and n:
+        names = list(t._data[t._index])
+        return ["span", [names[sd[0] % n], None, 0], [names[sd[1] % n], None, 0], None]
+    return None
+
+
 def exec_script(ctx, case):
     from xdeps.table import Table
     pool = []       # entries: {"t": table, "depth": int, "origin": str}
@@ -302,6 +319,17 @@ def exec_script(ctx, case):
                         else:
                             idx = [int(i) for i in np.arange(len(t))[sel]]
                         expect = rows_expect(before, idx)
+                    else:
+                        ast = selector_ast(t, s)
+                        if ast is not None:
+                            tm = {"index": t._index, "order": list(before["cols"]),
+                                  "cols": {c: [x for x in np.asarray(t._data[c]).tolist()] for c in before["cols"]
+                                           if np.asarray(t._data[c]).ndim == 1}}
+                            try:
+                                expect = rows_expect(before, TR.ref_select(tm, ast))
+                                classes.add("content-oracle:" + s["sel"])
+                            except (KeyError, IndexError, TR.Outside):
+                                expect = None
                 elif op == "cols":
                     names = [c for c in s["cols"] if c in t._col_names or s["src"] % 7 == 0]
                     if not names:
